@@ -80,24 +80,51 @@ M = [
  ('M11 FlattenedModel::sampleR returns the first local reward only', 'include/AIToolbox/Factored/Bandit/FlattenedModel.hpp',
   """        return model_.sampleR(helper_).sum();""",
   """        return model_.sampleR(helper_)[0];"""),
- ('M12 toIndexPartial(keys, space, PartialFactors) multiplies before adding', 'src/Factored/Utils/Core.cpp',
+ ('H2 harmless: toIndexPartial(keys, space, PartialFactors) multiplies first and divides back (same arithmetic)', 'src/Factored/Utils/Core.cpp',
   """            while (pf.first[j] != id) ++j;
             result += multiplier * pf.second[j];
             multiplier *= space[id];""",
   """            while (pf.first[j] != id) ++j;
             multiplier *= space[id];
             result += multiplier * pf.second[j] / space[id];"""),
+ ('M12 toIndexPartial(keys, space, PartialFactors) scales by the size of the scanned position instead of the key', 'src/Factored/Utils/Core.cpp',
+  """            while (pf.first[j] != id) ++j;
+            result += multiplier * pf.second[j];
+            multiplier *= space[id];""",
+  """            while (pf.first[j] != id) ++j;
+            result += multiplier * pf.second[j];
+            multiplier *= space[j];"""),
+ ('F13 (on the repaired tree) minusEqual appends the unmerged basis un-negated', 'src/Factored/Utils/FactoredVectorOps.cpp',
+  """            retval.bases.push_back(basis);
+            retval.bases.back().values *= -1.0;""",
+  """            retval.bases.push_back(basis);
+            retval.bases.back().values *= 1.0;"""),
+ ('F14 (on the repaired tree) CooperativeQLearning does not split the discounted value among the agents', 'src/Factored/MDP/Algorithms/CooperativeQLearning.cpp',
+  """            const double val = discount_ * q.values(s1id, a1id) / q.actionTag.size();""",
+  """            const double val = discount_ * q.values(s1id, a1id);"""),
+ ('F15 (on the repaired tree) minusEqual(clearZero) erases the first basis instead of the merged one', 'src/Factored/Utils/FactoredVectorOps.cpp',
+  """                    retval.bases.erase(std::begin(retval.bases) + i);""",
+  """                    retval.bases.erase(std::begin(retval.bases));"""),
+ ('F16 (on the repaired tree) minusEqual reverse merge forgets to negate the incoming basis', 'src/Factored/Utils/FactoredVectorOps.cpp',
+  """                    negated.values *= -1.0;""",
+  """                    negated.values *= 1.0;"""),
 ]
 sel = sys.argv[1:]
 fix = os.environ.get('FIX') == '1'
 for name, f, a, b in M:
     if sel and name.split()[0] not in sel: continue
-    if fix:
+    KF = os.path.join(WT, 'known_findings.d', 'C14.json'); kf_saved = None
+    if fix or name.startswith('F'):
+        # on the repaired tree the findings are closed: mark them so for the duration of the trial (restored below)
+        kf_saved = open(KF).read()
+        open(KF, 'w').write(kf_saved.replace('"status": "open"', '"status": "fixed"'))
         for d in ('C14-1-minusequal-subtracts', 'C14-2-basis-binop-alloc-size', 'C14-3-coopqlearning-uninit-norm'):
             subprocess.run(['git', '-C', REPO, 'apply', os.path.join(WT, 'fixes', d + '.diff')], check=True)
     p = os.path.join(REPO, f); s = open(p).read()
     if s.count(a) != 1:
-        print(name, 'PATTERN COUNT', s.count(a)); subprocess.run(['git', '-C', REPO, 'checkout', '--', '.']); continue
+        print(name, 'PATTERN COUNT', s.count(a)); subprocess.run(['git', '-C', REPO, 'checkout', '--', '.'])
+        if kf_saved is not None: open(KF, 'w').write(kf_saved)
+        continue
     open(p, 'w').write(s.replace(a, b))
     r = subprocess.run(['python3', 'tools/check.py', 'C14', '--tier', 'quick'], cwd=WT, env=env, capture_output=True, text=True)
     lines = [l for l in r.stdout.splitlines() if l.startswith('VIOLATION') or l.startswith('[C14]')]
@@ -107,4 +134,5 @@ for name, f, a, b in M:
         if l.startswith('VIOLATION'):
             rp = l.split('replay=')[1].split()[0]
             d = json.load(open(rp)); print('    first:', (d.get('verdict') or d.get('detail') or str(d.get('broken'))[:300])[:260]); break
+    if kf_saved is not None: open(KF, 'w').write(kf_saved)
     subprocess.run(['git', '-C', REPO, 'checkout', '--', '.'])
